@@ -395,6 +395,10 @@ def _native_monitor(which, nn, bb, ns_user=None):
         if not set(np.round(np.asarray(bvals, dtype=float), 9)) <= set(np.round(cur.astype(float), 9)) or np.isnan(np.asarray(bvals, dtype=float)).any():
             msgs.append(f"call {call}: n={nn}, b={bb}: the batch contains rows that are not rows of the store: {np.asarray(bvals).tolist()}")
             break
+        if len(set(np.round(cur.astype(float), 9))) == len(cur) and len(set(np.round(np.asarray(bvals, dtype=float), 9))) < bb:
+            msgs.append(f"call {call}: n={nn}, b={bb}: the batch serves a stored point more than once: {np.asarray(bvals).tolist()} "
+                        f"(a batch is a window of {bb} distinct rows of the store)")
+            break
         if resh and prev is not None:
             if len(set(np.round(served, 9))) < nn:
                 msgs.append(f"call {call}: n={nn}, b={bb}" + (f", n_start={ns_user} passed without RAR" if ns_user else "") +
